@@ -33,7 +33,7 @@ def _task(payload):
             viols.append((t, m, h))
         else:
             other[t] = other.get(t, 0) + 1
-    return {"name": name, "opts": opts, "pop_orders": getattr(r, "pop_orders", 0), "spec": spec, "states": r.states, "transitions": r.transitions, "runs": r.runs,
+    return {"name": name, "quotient_pairs": r.quotient_pairs, "quotient_mismatch": [repr(m)[:300] for m in r.quotient_mismatch[:2]], "opts": opts, "pop_orders": getattr(r, "pop_orders", 0), "spec": spec, "states": r.states, "transitions": r.transitions, "runs": r.runs,
             "capped": r.capped, "depth": r.max_depth, "viols": viols, "other": other, "kinds": r.kinds,
             "samples": r.samples[:1], "secs": round(dt_, 2), "nviol": sum(1 for t, _, _ in r.violations if t in tags)}
 
@@ -78,6 +78,12 @@ def run(prop, tier, *, tags=None, norm=False, opts=None, specs=None, extra=None)
     samples = []
     maxd = 0
     nontrivial = 0
+    qp = sum(r["quotient_pairs"] for r in res)
+    qm = [m for r in res for m in r["quotient_mismatch"]]
+    if qm:
+        import sys
+        print("FATAL: the canonical-state quotient merged states with different futures (harness abstraction unsound): " + qm[0], file=sys.stderr)
+        sys.exit(2)
     for r in res:
         for k in tot:
             tot[k] += r[k]
@@ -102,6 +108,7 @@ def run(prop, tier, *, tags=None, norm=False, opts=None, specs=None, extra=None)
         "real_uberjob_run_calls": tot["runs"],
         "plans": len(specs), "plans_with_more_than_2_states": nontrivial,
         "pop_orders_enumerated": tot["pop_orders"],
+        "merged_concrete_state_pairs_with_futures_compared": qp,
         "plan_build_orders": sorted({r["opts"].get("order", "topo") for r in res}),
         "events_by_kind": kinds, "max_bfs_depth": maxd,
         "fixpoint_reached_for_every_plan": not capped, "exhaustive": not capped,
